@@ -31,6 +31,8 @@ func checkC19(c *Ctx) {
 	c.Rule("R4", "lock discipline and acyclic lock order; free callback without the counter lock")
 	c.Rule("R5", "report keys come from previous reports or from a counter's Latch")
 	c.Rule("R6", "frequency nodes: freq immutable after creation; increment creates freq+1 right after; add enters at freq 1")
+	c.Rule("R7", "no link field of a list node is read after Free() cleared it")
+	c.Rule("R8", "a counter method that refreshes the last-update minute does so on every return path")
 
 	items := p.Field(hkPkg, "Counter", "items")
 	head := p.Field(hkPkg, "Counter", "freqHead")
@@ -525,6 +527,8 @@ func checkC19(c *Ctx) {
 		c.Check(okAdd, "R6", "new items enter at a freq-1 node", add.Pos(), "node{freq: 1}", "a new key does not start with count 1")
 	}
 	c.Expect("R6", 5)
+	checkNoUseAfterFree(c, "R7")
+	checkLutRefresh(c, "R8")
 }
 
 var le19cache *lockEngine
@@ -552,4 +556,100 @@ func instrDominatesOrSameIter(d ssa.Instruction, hdr *ssa.BasicBlock) bool {
 		}
 	}
 	return false
+}
+
+// checkNoUseAfterFree (C19.R7): Free() of a list node unlinks it and clears its own links. Reading a link field of the
+// node after that call reads nil: the frequency list loses its head (or its tail), the older buckets become
+// unreachable and can never be evicted - a full counter then evicts a key that is not a lowest-count key.
+func checkNoUseAfterFree(c *Ctx, rule string) {
+	p := c.P
+	n := 0
+	for _, fn := range p.FuncsIn(hkPkg) {
+		if p.isTestFn(fn) {
+			continue
+		}
+		perFn := 0
+		eachInstr(fn, func(_ *ssa.BasicBlock, _ int, in ssa.Instruction) {
+			call, ok := in.(*ssa.Call)
+			if !ok {
+				return
+			}
+			g := calleeFn(call.Common())
+			if g == nil || g.Name() != "Free" || g.Signature.Recv() == nil || len(call.Call.Args) == 0 {
+				return
+			}
+			rt := g.Signature.Recv().Type()
+			if !modType(deref(rt), hkPkg, "freqNode") && !modType(deref(rt), hkPkg, "itemNode") {
+				return
+			}
+			recv := call.Call.Args[0]
+			n++
+			perFn++
+			site := fmt.Sprintf("%s Free#%d: node not read afterwards", fnKey(fn), perFn)
+			var use ssa.Instruction
+			path := findPath(posOf(call), pathQuery{target: func(x ssa.Instruction) bool {
+				ld, ok := x.(*ssa.UnOp)
+				if !ok || ld.Op != token.MUL {
+					return false
+				}
+				if fa, ok := ld.X.(*ssa.FieldAddr); ok && fa.X == recv {
+					use = x
+					return true
+				}
+				return false
+			}})
+			if path != nil {
+				c.Fail(rule, site, use.Pos(), "a link field of the node is read after Free() cleared it ("+p.pathString(path)+"): the value is nil, so the list loses the nodes behind it - they stay tracked but can never be evicted, and a full counter evicts a key that is not a lowest-count key")
+			} else {
+				c.OK(rule, site, call.Pos(), "no field of the node is read on any path after Free()")
+			}
+		})
+	}
+	c.Expect(rule, 2)
+	_ = n
+}
+
+// checkLutRefresh (C19.R8): the decay pass halves a reported key only when its last-update minute is old, and relies on
+// all reported keys carrying the minute of the last collection. A counter method that refreshes that minute must do
+// so on every return path - a fast path that returns early leaves some keys with an old minute, so the decay halves
+// some keys and not others and the report is no longer ordered by heat.
+func checkLutRefresh(c *Ctx, rule string) {
+	p := c.P
+	lut := p.Field(hkPkg, "logrithmCounter", "lut")
+	if lut == nil {
+		c.Unresolved(rule, "logrithmCounter.lut")
+		return
+	}
+	// the methods in question: writers of the minute that the per-period merge calls for every reported key (the decay
+	// pass's own halving is exempt: a value that is already 0 needs no decay and its minute does not matter)
+	collect := p.Func(hkPkg, "(*Collector).collect")
+	if collect == nil {
+		c.Unresolved(rule, "(*Collector).collect")
+		return
+	}
+	calledByCollect := map[*ssa.Function]bool{}
+	for _, g := range staticCalleesDeep(collect, 2) {
+		calledByCollect[g] = true
+	}
+	n := 0
+	seen := map[*ssa.Function]bool{}
+	for _, a := range p.fieldAccesses(lut) {
+		if !a.Write || seen[a.Fn] || p.isTestFn(a.Fn) || !calledByCollect[a.Fn] {
+			continue
+		}
+		seen[a.Fn] = true
+		fn := a.Fn
+		n++
+		isStore := func(x ssa.Instruction) bool {
+			st, ok := x.(*ssa.Store)
+			if !ok {
+				return false
+			}
+			f, _ := fieldAddr(st.Addr)
+			return f == lut
+		}
+		path := findPath(entryPos(fn), pathQuery{target: isReturn, avoid: isStore})
+		c.Check(path == nil, rule, fnKey(fn)+" refreshes the last-update minute on every path", fn.Pos(), "every return crosses the store", "a path returns without refreshing the last-update minute ("+p.pathString(path)+"): keys that take it keep an old minute, the decay pass halves them alone and the HOTKEY report is no longer ordered by non-increasing heat")
+	}
+	c.Expect(rule, 1)
 }
